@@ -234,7 +234,9 @@ func report(id, tier string, ps *PropSpec, results []*RunResult, loadT, wall tim
 			if i < nWit {
 				// positive witness
 				if rr != nil {
-					if rr.Outcome == "ok" && rr.TraceOK {
+					if rr.Outcome == "ok" && (rr.TraceOK || hasRnd(c.Inputs)) {
+						// (traces are not compared when the run depends on environment values -
+						// random draws, clock readings - that cannot be injected natively)
 						validated++
 					} else if rr.Outcome == "ok" && !rr.TraceOK {
 						inconclusive = append(inconclusive, fmt.Sprintf("%s: witness trace differs natively: engine %v native %v", h, c.Traces, rr.Traces))
